@@ -34,6 +34,7 @@ type fakeChain struct {
 	blocks  map[common.Hash]*types.Block
 	order   []*types.Header // insertion order (for the model's list)
 	border  []*types.Block
+	canon   map[uint64]*types.Header // canonical header by number: the first one stored at that height
 }
 
 func newChain(cfg *params.ChainConfig) *fakeChain {
@@ -55,6 +56,12 @@ func (f *fakeChain) addHeader(h *types.Header) {
 	}
 	f.headers[h.Hash()] = h
 	f.order = append(f.order, h)
+	if f.canon == nil {
+		f.canon = map[uint64]*types.Header{}
+	}
+	if _, ok := f.canon[h.Number.Uint64()]; !ok {
+		f.canon[h.Number.Uint64()] = h
+	}
 }
 
 // addBlock stores the block the way core.BlockChain.GetBlock returns it: the body is read without versions and then
@@ -85,7 +92,7 @@ func (f *fakeChain) GetHeader(hash common.Hash, number uint64) *types.Header {
 	}
 	return h
 }
-func (f *fakeChain) GetHeaderByNumber(number uint64) *types.Header  { return nil }
+func (f *fakeChain) GetHeaderByNumber(number uint64) *types.Header  { return f.canon[number] }
 func (f *fakeChain) GetHeaderByHash(hash common.Hash) *types.Header { return f.headers[hash] }
 func (f *fakeChain) GetBlock(hash common.Hash, number uint64) *types.Block {
 	b := f.blocks[hash]
@@ -1368,6 +1375,265 @@ func (e *env) testnet3() {
 	}
 }
 
+// ---------------------------------------------------------------- state-dependent short cuts: "already known"
+
+// knownTwins: VerifyHeader / verifyHeaderWorker / VerifyHeaders return nil for a header the chain already has.  Histories in
+// which the chain reader already holds, at the submitted header's height, the canonical block B and a side-chain block B';
+// submitted: the identical header (must short-circuit) and near-twins of B and of B' that differ ONLY in the nonce, ONLY in the
+// mix digest, only in the extra data, only in the time (re-sealed, i.e. difficulty recomputed, or not) — with an engine whose
+// VerifySeal fails at that height, seal checking on.  Oracle: unless the header is byte-identical to a stored one, its verdict
+// equals the verdict against a chain reader that holds only the ancestors (what is stored at the height must not matter).
+func (e *env) knownTwins() {
+	c := e.c
+	now := time.Now().Unix()
+	for ci, nc := range builtin {
+		cfg := nc.cfg
+		number := int64(40 + 11*ci)
+		if nc.name == "mainnet" {
+			number = 40300
+		}
+		base, seg := buildChain(c.Rng, cfg, number, 1, now)
+		gp, p, B := base[0], base[1], seg[0]
+		side := child(c.Rng, cfg, p, gp, 77)
+		store, fresh := newChain(cfg), newChain(cfg)
+		for _, h := range []*types.Header{gp, p} {
+			store.addHeader(h)
+			fresh.addHeader(h)
+		}
+		store.addHeader(B) // canonical at `number`
+		store.addHeader(side)
+		eng := aquahash.NewFakeFailer(uint64(number))
+		seal := func(h *types.Header) int {
+			if h.Number.Uint64() == uint64(number) {
+				return 1
+			}
+			return 0
+		}
+		type variant struct {
+			name string
+			f    func(h *types.Header)
+		}
+		variants := []variant{
+			{"identical", func(h *types.Header) {}},
+			{"nonce-only", func(h *types.Header) { h.Nonce = types.EncodeNonce(h.Nonce.Uint64() + 1 + c.Rng.Uint64()%1000) }},
+			{"mix-only", func(h *types.Header) { h.MixDigest[c.Rng.Intn(32)] ^= 0x40 }},
+			{"nonce+mix", func(h *types.Header) { h.Nonce = types.EncodeNonce(c.Rng.Uint64() | 1); h.MixDigest[0] ^= 1 }},
+			{"extra-only", func(h *types.Header) { h.Extra = append([]byte("twin"), byte(c.Rng.Intn(256))) }},
+			{"time-only", func(h *types.Header) { h.Time = new(big.Int).Add(h.Time, big.NewInt(1)) }},
+			{"time-resealed", func(h *types.Header) {
+				h.Time = new(big.Int).Add(h.Time, big.NewInt(1))
+				if d, pn := specDifficulty(cfg, h.Time, p, gp); !pn {
+					h.Difficulty = d
+				}
+			}},
+		}
+		for _, of := range []struct {
+			name string
+			h    *types.Header
+		}{{"canonical", B}, {"side", side}} {
+			for _, va := range variants {
+				tw := types.CopyHeader(of.h)
+				va.f(tw)
+				identical := tw.Hash() == of.h.Hash()
+				class := fmt.Sprintf("known/%s/%s", of.name, va.name)
+				run := func(ch *fakeChain) string {
+					var err error
+					if pan, _ := vh.CatchPanic(func() { err = eng.VerifyHeader(ch, tw, true) }); pan {
+						return "panic"
+					}
+					return classify(err)
+				}
+				got, want := run(store), run(fresh)
+				cas := fmt.Sprintf("vtop %s %d %s %s 1", cfgTok(cfg), time.Now().Unix(), hdrsTok(store.order, seal), hdrTok(tw, seal(tw)))
+				key := ""
+				if got == "ok" {
+					key = class + "/" + nc.name
+				}
+				c.Eval(class, key)
+				c.Correspond("VerifyHeader(known twin)~verify_header_top", cas, got, e.m.Ask(cas))
+				rep := map[string]string{"config": cfgTok(cfg), "entry": "VerifyHeader", "twin_of": of.name, "differs_in": va.name, "stored_at_height": hdrsTok([]*types.Header{B, side}, seal),
+					"submitted": hdrTok(tw, seal(tw)), "verdict_with_store": got, "verdict_with_ancestors_only": want}
+				if identical {
+					if got != "ok" {
+						c.Violate(fmt.Sprintf("known-header-not-short-circuited/%s/%s/%s", nc.name, of.name, got), "a header byte-identical to a stored one is not accepted as known", rep)
+					}
+				} else if got != want {
+					c.Violate(fmt.Sprintf("known-shortcut-twin/VerifyHeader/%s/%s/%s/%s", of.name, va.name, nc.name, got),
+						"the verdict for a header that is NOT stored depends on what is stored at its height (a near-twin of a known block is treated as known: no rule / seal check)", rep)
+				}
+				// the batch entry points: the twin alone and followed by a child (in-batch parent); every worker synchronously
+				kid := child(c.Rng, cfg, tw, p, 100)
+				for _, batch := range [][]*types.Header{{tw}, {tw, kid}} {
+					seals := make([]bool, len(batch))
+					for i := range seals {
+						seals[i] = true
+					}
+					for i := range batch {
+						w := func(ch *fakeChain) string {
+							var err error
+							if pan, _ := vh.CatchPanic(func() { err = eng.VerifVerifyHeaderWorker(ch, batch, seals, i) }); pan {
+								return "panic"
+							}
+							return classify(err)
+						}
+						g, f := w(store), w(fresh)
+						if !identical && g != f {
+							rep2 := map[string]string{"config": cfgTok(cfg), "entry": fmt.Sprintf("verifyHeaderWorker index %d of %d", i, len(batch)), "twin_of": of.name, "differs_in": va.name,
+								"submitted": hdrsTok(batch, seal), "verdict_with_store": g, "verdict_with_ancestors_only": f}
+							c.Violate(fmt.Sprintf("known-shortcut-twin/VerifyHeaders/%s/%s/%s/%d-of-%d/%s", of.name, va.name, nc.name, i, len(batch), g),
+								"a batch worker's verdict for a header that is NOT stored depends on what is stored at its height", rep2)
+						}
+					}
+					e.checkBatch(class+fmt.Sprintf("/batch%d", len(batch)), nc.name, store, batch, seals, eng, uint64(number))
+				}
+			}
+		}
+	}
+}
+
+// insertHeaderTwin: the same through a real core.BlockChain: a canonical header chain is imported, then near-twins of one of
+// its headers are submitted alone through InsertHeaderChain with every seal checked by an engine whose VerifySeal fails at
+// that height.  Oracle: the verdict equals that of a second chain which only has the ancestors; a rejected twin is not stored.
+func (e *env) insertHeaderTwin() {
+	c := e.c
+	cfg := params.TestChainConfig
+	const n, k = 6, 3 // headers 1..6; twins of header #3
+	type variant struct {
+		name string
+		f    func(h *types.Header)
+	}
+	for _, va := range []variant{
+		{"identical", func(h *types.Header) {}},
+		{"nonce-only", func(h *types.Header) { h.Nonce = types.EncodeNonce(7 + c.Rng.Uint64()%1000) }},
+		{"mix-only", func(h *types.Header) { h.MixDigest[3] ^= 0x10 }},
+		{"extra-only", func(h *types.Header) { h.Extra = []byte("twin") }},
+	} {
+		var got, want string
+		var stored bool
+		var headers []*types.Header
+		var tw, genesisH *types.Header
+		pan, pv := vh.CatchPanic(func() {
+			db := aquadb.NewMemDatabase()
+			gspec := &core.Genesis{Config: cfg, Difficulty: big.NewInt(46039386)}
+			genesis := gspec.MustCommit(db)
+			blocks, _ := core.GenerateChain(context.Background(), cfg, genesis, aquahash.NewFaker(), db, n, nil)
+			for _, b := range blocks {
+				headers = append(headers, b.Header())
+			}
+			tw = types.CopyHeader(headers[k-1])
+			va.f(tw)
+			verdict := func(prefix int) (string, bool) {
+				db2 := aquadb.NewMemDatabase()
+				gspec.MustCommit(db2)
+				bc, err := core.NewBlockChain(context.Background(), db2, nil, cfg, aquahash.NewFakeFailer(k), vm.Config{})
+				if err != nil {
+					return "setup " + err.Error(), false
+				}
+				defer bc.Stop()
+				genesisH = bc.GetHeaderByNumber(0)
+				if _, err := bc.InsertHeaderChain(headers[:prefix], 100); err != nil { // only the last header's seal is sampled
+					return "setup prefix: " + err.Error(), false
+				}
+				idx, err := bc.InsertHeaderChain([]*types.Header{tw}, 1)
+				v := "ok"
+				if err != nil {
+					v = fmt.Sprintf("%d %s", idx, classify(err))
+				}
+				return v, bc.GetHeaderByHash(tw.Hash()) != nil
+			}
+			got, stored = verdict(n)
+			want, _ = verdict(k - 1)
+		})
+		if pan {
+			got = fmt.Sprintf("panic %v", pv)
+		}
+		identical := va.name == "identical"
+		c.Eval("known/insertheaderchain/"+va.name, "")
+		rep := map[string]string{"config": cfgTok(cfg), "entry": "BlockChain.InsertHeaderChain", "twin_of_canonical_header": fmt.Sprint(k), "differs_in": va.name,
+			"verdict_with_canonical_chain": got, "verdict_with_ancestors_only": want, "twin_stored": fmt.Sprint(stored)}
+		if pan || strings.HasPrefix(got, "setup") || strings.HasPrefix(want, "setup") {
+			c.Violate("headerchain-import/"+got+"/"+want, "header-first import failed unexpectedly", rep)
+			continue
+		}
+		seal := func(h *types.Header) int {
+			if h.Number.Uint64() == k {
+				return 1
+			}
+			return 0
+		}
+		chainHs := append([]*types.Header{genesisH}, headers...)
+		cas := fmt.Sprintf("vchain %s %d %s %s 1", cfgTok(cfg), time.Now().Unix(), hdrsTok(chainHs, seal), hdrTok(tw, 1))
+		c.Correspond("InsertHeaderChain(known twin)~validate_with_seals", cas, got, e.m.Ask(cas))
+		if identical {
+			if got != "ok" {
+				c.Violate("known-header-not-short-circuited/insertheaderchain/"+got, "re-importing a stored header is rejected", rep)
+			}
+		} else if got != want || (got != "ok" && stored) {
+			c.Violate(fmt.Sprintf("known-shortcut-twin/InsertHeaderChain/%s/%s", va.name, got),
+				"header-first import of a near-twin of a canonical header: the verdict depends on the canonical header being stored (no rule / seal check), or a rejected twin is stored", rep)
+		}
+	}
+}
+
+// insertChainUncleCommitment: the header commits to its uncle list (UncleHash).  Real chains (GenerateChain) whose block #4
+// is re-bodied: the committed list (accepted), another valid uncle instead of the committed one, an uncle although the header
+// commits to none, no uncle although the header commits to one — each must be rejected at #4 by InsertChain.
+func (e *env) insertChainUncleCommitment() {
+	c := e.c
+	cfg := params.TestChainConfig
+	for _, kind := range []string{"committed", "other-uncle", "uncle-but-commits-to-none", "none-but-commits-to-one"} {
+		var verdict string
+		pan, pv := vh.CatchPanic(func() {
+			db := aquadb.NewMemDatabase()
+			gspec := &core.Genesis{Config: cfg, Difficulty: big.NewInt(46039386)}
+			genesis := gspec.MustCommit(db)
+			var other *types.Header
+			chain, _ := core.GenerateChain(context.Background(), cfg, genesis, aquahash.NewFaker(), db, 4, func(i int, gen *core.BlockGen) {
+				if i == 3 {
+					u := gen.PrevBlock(2).Header()
+					u.Extra = []byte("uncle-a")
+					other = gen.PrevBlock(2).Header()
+					other.Extra = []byte("uncle-b")
+					if kind != "uncle-but-commits-to-none" {
+						gen.AddUncle(u)
+					}
+				}
+			})
+			switch kind {
+			case "other-uncle", "uncle-but-commits-to-none":
+				chain[3] = chain[3].WithBody(nil, []*types.Header{other})
+			case "none-but-commits-to-one":
+				chain[3] = chain[3].WithBody(nil, nil)
+			}
+			db2 := aquadb.NewMemDatabase()
+			gspec.MustCommit(db2)
+			bc, err := core.NewBlockChain(context.Background(), db2, nil, cfg, aquahash.NewFaker(), vm.Config{})
+			if err != nil {
+				verdict = "setup " + err.Error()
+				return
+			}
+			defer bc.Stop()
+			if idx, err := bc.InsertChain(chain); err != nil {
+				verdict = fmt.Sprintf("rejected at #%d", chain[idx].NumberU64())
+			} else {
+				verdict = "ok"
+			}
+		})
+		if pan {
+			verdict = fmt.Sprintf("panic %v", pv)
+		}
+		want := "rejected at #4"
+		if kind == "committed" {
+			want = "ok"
+		}
+		c.Eval("insertchain-uncle-commitment/"+kind, "")
+		if verdict != want {
+			c.Violate(fmt.Sprintf("insertchain-uncle-commitment/%s/%s", kind, verdict), "InsertChain of a block whose body's uncle list is not the one its header commits to",
+				map[string]string{"config": cfgTok(cfg), "kind": kind, "verdict": verdict, "expected": want})
+		}
+	}
+}
+
 // ---------------------------------------------------------------- 1. CalcDifficulty lattice
 
 // monotone: the defined forks are scheduled in increasing order of their index
@@ -2439,6 +2705,9 @@ func main() {
 	e.insertChainTwice()
 	c.Note("insertChainTwice took %.1fs", time.Since(t0).Seconds())
 	e.highBits()
+	e.knownTwins()
+	e.insertHeaderTwin()
+	e.insertChainUncleCommitment()
 	t1 := time.Now()
 	e.headerChainImport()
 	e.headerChainKnownBad()
